@@ -192,9 +192,14 @@ class Fragment:
         return len(self.content)
 
     def child(self, index: int) -> "Node":
+        if index < 0:
+            msg = f"Index {index} out of range for {self}"
+            raise IndexError(msg)
         return self.content[index]
 
     def maybe_child(self, index: int) -> Optional["Node"]:
+        if index < 0:
+            return None
         try:
             return self.content[index]
         except IndexError:
